@@ -261,11 +261,13 @@ def shape(kind, written, ins, outs):
 
 STRS = ["Firefox", "firefox", "FIREFOX - YouTube", "", "é", "É", "straße", "STRASSE", "x", "a b", "123",
         "(2) Facebook", "● file.py", "* gedit", "Cemu - FPS: 59.2 - x", "日本語", "\n", "fire\nfox", "𝔘nicode",
-        "İstanbul", "ǆ", "-", "Uncategorized"]
+        "İstanbul", "ǆ", "-", "Uncategorized", "fox fox trot", "a a b", "1123", "x x"]
 NONSTR = [5, None, True, 1.5, ["Firefox"], ["a", 1], {"x": "Firefox"}, [], {}, 0, False]
 KEYS = ["app", "title", "url", "$category", "$tags", "k", "é", "status"]
 REGEX = ["MISSING", None, "", "fire", "Fire", "FIREFOX", "fox$", "^$", "é", "É", "strasse", "ß", ".", "x*", "\\d+",
-         "a|b", "(?i)you", "^\\(", "日本", "[A-Z]+", "\\s", "^.$", "i", "ǅ", "Uncat", "\\bfire", "(?s).fox"]
+         "a|b", "(?i)you", "^\\(", "日本", "[A-Z]+", "\\s", "^.$", "i", "ǅ", "Uncat", "\\bfire", "(?s).fox",
+         # groups and references to them (a rule's regex is its own: numbering starts at 1 in every rule)
+         "(fire|x)\\b", "\\b(\\w+) \\1\\b", "(\\d)\\1", "(?P<w>a) (?P=w)?b", "(a)|(b)\\2"]
 SELECT = ["MISSING", None, [], ["title"], ["app"], ["app", "title"], ["missing"], ["k"], ["title", "missing"],
           ["$category"], ["é"], ["title", "title"], ["$tags", "app"]]
 CATS = [["A"], ["B"], ["A", "x"], ["B", "y"], ["A", "x", "z"], [], ["Uncategorized"], ["Ü", "ü"], ["", ""]]
